@@ -93,6 +93,27 @@ CLAIMS.update({
     },
 })
 
+CLAIMS.update({
+    "C18": {
+        "text": "The atomic-publication discipline the thread-safety argument rests on: the table of instance-field stores outside construction is exactly {PointJacobi.__coords <- scale, PointJacobi.__precompute <- _maybe_precompute, Public_key.point <- VerifyingKey.precompute, ECDH configuration fields <- its loaders, _LightSwitch counter}; no module-global write is reachable from point/key operations; each hidden store on a point happens exactly once per call as a single rebind of a tuple of locals / a privately built list untouched after publication / a freshly constructed object, and no field is mutated in place; per method and receiver the coordinates entering arithmetic come from one load of the tuple (further loads only feed zero tests or follow the receiver's own scale()); the table is read by truthiness / whole iteration only and built on privately constructed objects; pickling takes one dict.copy(); in the thorough tier the bytecode of the publications is cross-checked (single STORE_ATTR fed by BUILD_TUPLE / local). Under A4 and the algebraic fact that scale() preserves the denoted point, these are the premises of 'no torn point, no partial table'; linearizability of whole operations over all schedules is not decided.",
+        "note": "A2, A4; ownership is decided flow-insensitively over the whole library with receiver classes from the type analysis; unpickling's __dict__.update is the one exempted in-place mutation (object not yet shared).",
+        "technique": "ownership / effect analysis (who-may-write table, publication shape, snapshot-read dataflow), bytecode cross-check with dis on compiled-not-executed code",
+        "design": "DESIGN.md section 3 C18",
+    },
+    "C19": {
+        "text": "Immutability by ownership and state transfer: every public method of the nine value classes has no field or global write effect, own or through callees, other than the two value-preserving writers of PointJacobi and VerifyingKey.precompute's replacement of the point object (transitive write-effect summary over the call graph); arguments are mutated only through scale()/_maybe_precompute(); scale() works from one snapshot, is skipped when Z == 1, stores (x', y', 1) computed from the snapshot and p only with X' depending on (X, Z) and Y' on (Y, Z); _maybe_precompute is guarded by (generator flag, empty table) and reads only coords/order/curve; from_affine / VerifyingKey.precompute rebuild the point from its own accessors; __getstate__/__setstate__ transfer the complete dictionary; __eq__ of keys and curves compares exactly the value-defining fields (no identity, no hidden state) and PointJacobi.__eq__ compares reduced cross products. The Y == 0 identity test in __eq__ is the recorded known finding F6. Does not decide that later results equal fresh-object results (needs the algebra of scale and the group law).",
+        "note": "A2; same ownership analysis as C18; value preservation of scale() is checked as shape (dependencies), not as algebra.",
+        "technique": "transitive write-effect analysis over the call graph + structural shape checks of the value-preserving writers and equality methods",
+        "design": "DESIGN.md section 3 C19",
+    },
+    "C20": {
+        "text": "Lock discipline of the reader-writer lock, with locks identified by construction site: both light-switch methods take their mutex first and release it last with no early exit or raising statement in between, touch the counter only while the mutex is held and perform the group-lock operation after the counter update (== 1 after increment -> acquire, == 0 after decrement -> release); the reader/writer acquire methods hand out exactly the locks that the matching release methods release through the same switch and lock objects, every plain lock taken on the way in is released before returning, writer release drops the exclusive lock before leaving the writers group; the held->acquired lock-order graph over the five locks (7 edges, including the release phases) is acyclic; readers pass through queue and no_readers, writers never touch the queue. These are the premises that proofs of mutual exclusion and deadlock freedom assume; exclusion and liveness over all schedules are a state-space question and are not decided here.",
+        "note": "A4; a group lock held by a switch counts as held; the pair (group lock of a switch -> that switch's mutex) is excluded from the order graph with the reason stated in the evidence.",
+        "technique": "typestate / lock-set analysis: pairing on all paths, guarded-by, lock-order graph",
+        "design": "DESIGN.md section 3 C20",
+    },
+})
+
 NOT_YET = "check not built yet (framework under construction; design in DESIGN.md section 3)"
 
 
